@@ -1604,11 +1604,14 @@ def compile_try_expression(compiler, expr, root, body, catchers, orelse, finalbo
         # An empty `finally` clause still has to make the `try` valid Python.
         finalbody = finalbody.stmts or [asty.Pass(expr)]
 
+    return_name = asty.Name(expr, id=return_var.id, ctx=ast.Load())
     returnable = Result(
-        expr=asty.Name(expr, id=return_var.id, ctx=ast.Load()),
+        expr=return_name,
         # With `finally`, an enclosing assignment mustn't take over the
         # return variable: its target would be set before `finally` runs.
-        temp_variables=[] if finalbody else [return_var],
+        # The name that reads the variable has to be renamed along with it,
+        # for `setx`, which keeps the expression.
+        temp_variables=[] if finalbody else [return_name, return_var],
     )
     body += (
         body.expr_as_stmt()
